@@ -36,7 +36,7 @@ check('C17', 'contracts', 'exploration', 'runtime contract on the real static me
       'existence of a decreasing-cost least-loaded replay, purity, and equality of results across PYTHONHASHSEED values.',
       'Tie-breaks are free; replay search capped at 20000 nodes per case (capped cases counted, other clauses still decide).', 'DESIGN.md §3 C17')
 check('C06', 'contracts', 'exploration', 'runtime relational monitor over one real KAISAAssignment per rank (cross-rank view comparison)',
-      'Exhaustive over world sizes (quick <=64, thorough <=256 plus 98/147/196), every divisor k, colocate on/off and five cost families: all public queries of '
+      'Exhaustive over world sizes (quick <=64, thorough <=320 plus 98/147/196), every divisor k, colocate on/off and five cost families: all public queries of '
       'all rank views are compared with relations taken from the statement; construction also through KFACPreconditioner (float/enum); equal digests across hash seeds.',
       'For W>16 only ranks {0,1,W//2,W-1,random} are instantiated; group handles are a recorder.', 'DESIGN.md §3 C06')
 check('C14', 'simdist', 'exploration', 'exact round-trip oracle for every n up to a bound + differential symmetric-vs-dense communication on the simulated backend',
@@ -105,7 +105,7 @@ check('C09', 'refmodel', 'fault_enumeration', 'fault enumeration over the checkp
       'A resume is a fresh preconditioner on the same model object; runs of 3-8 steps.', 'DESIGN.md §3 C09')
 
 check('C12', 'contracts', 'exploration', 'runtime relational monitor over one real GPTNeoXAssignment per rank (cross-rank view comparison, greedy replay, recorded new_group order)',
-      'Exhaustive over (pipe,data,model) topologies with product <=24 (thorough <=64), every local rank and five cost families: stage-wide agreement on inverse workers, least-loaded greedy replay, '
+      'Exhaustive over (pipe,data,model) topologies with product <=24 (thorough <=96), every local rank and five cost families: stage-wide agreement on inverse workers, least-loaded greedy replay, '
       'factor_worker / src_grad_worker / is_grad_worker relations from topology coordinates, broadcast flags, identical new_group sequences on all ranks, equal digests across hash seeds; '
       'the new_group order is additionally observed on the real front-end by the simdist runs of C03.',
       'DeepSpeed topology stand-in (stubs/deepspeed); group handles are recorder tuples.', 'DESIGN.md §3 C12')
